@@ -1,10 +1,11 @@
 #!/bin/sh
-# builds the driver from the extracted model (model.ml is produced by coq/Extract.v)
+# builds the driver from the extracted model (model.ml is produced by coq/Extract.v).
+# Every chk_*.ml defines  let kinds : (string * (Blocks.block -> Blocks.verdict list)) list
 set -e
 cd "$(dirname "$0")"
 mkdir -p _build
 cp model.ml model.mli conv.ml blocks.ml chk_*.ml driver.ml _build/
 cd _build
 CHK=$(ls chk_*.ml | sort | tr '\n' ' ')
-ocamlfind ocamlopt -O3 -w -a -package unix model.mli model.ml conv.ml blocks.ml $CHK driver.ml -o driver 2>&1 || \
-ocamlfind ocamlopt -w -a model.mli model.ml conv.ml blocks.ml $CHK driver.ml -o driver
+{ printf 'let checkers = List.concat ['; for f in $CHK; do m=$(basename $f .ml); M=$(echo $m | cut -c1 | tr a-z A-Z)$(echo $m | cut -c2-); printf '%s.kinds; ' $M; done; echo ']'; } > registry.ml
+ocamlfind ocamlopt -w -a -package unix -linkpkg model.mli model.ml conv.ml blocks.ml $CHK registry.ml driver.ml -o driver
